@@ -5,7 +5,7 @@ CONSTANTS
   AmpsL <- Amps3
   Pin = 3
   Mutant = "none"
-  ExemptKnown = TRUE
+  PreFix = FALSE
   Emit = FALSE
 INVARIANT RouteGivesDense
 INVARIANT RdmGivesDense
